@@ -17,6 +17,10 @@ def run(chk):
     ]
     ok = chk.check_theorems()
     pc.run_policy_check(chk, "C09", "proj_P09", OPTS, theorems_ok=ok)
+    # "exactly once" also when a callback fails or is interrupted at any invocation (the fault sweep of C08, outside the model):
+    # e.g. a KeyboardInterrupt surfacing in the hook that receives the circuit_closed event of a call that has just reported success
+    import importlib
+    importlib.import_module("props.C08").fault_part(chk, exactly_once=True)
     if ok:
         import source_tie
         source_tie.report(chk, source_tie.policy_tie(chk), "policy",
@@ -24,4 +28,8 @@ def run(chk):
 
 
 def replay(path):
+    import json
+    if "fault_scenario" in json.load(open(path)):
+        import importlib
+        return importlib.import_module("props.C08").replay(path)
     return pc.replay_policy(path)
